@@ -31,13 +31,45 @@ class Withdraw:
         self.qp = qp
         ti = [(b, P.val_call(w, w.body, b)) for b, p, fr, t in P.calls(w) if ctx.N.is_fn(p, "q_token_info")]
         self.ti = ti
+        self.pay_fn = {}      # k -> (function holding the payout call, call bb): the handler, or the closure mapped over all refunds
+        work = []
         for cb in self.pays:
             cv = P.val_call(w, w.body, cb)
             me = common.mapped_element(cv[4][0])
             if me is None:
                 self.problems.append((cb, "refund asset is not element k of pools.iter().map(..).collect(): unrecognised-idiom"))
                 continue
+            work.append((cb, me, w))
+        if not self.pays:
+            # closure form: `refunds.iter().cloned().map(|asset| asset.into_msg(sender.clone())).collect::<StdResult<_>>()?`
+            for pc in [g for g in P.fns.values() if g.kind == "closure" and g.parent == w.path and g.body is not None]:
+                ccalls = self.pr.calls_to(pc, self.tc)
+                if len(ccalls) != 1:
+                    continue
+                ccv = P.val_call(pc, pc.body, ccalls[0])
+                exs = common.exit_sites(P, pc)
+                maps = [(b, P.val_call(w, w.body, b)) for b, p, fr, t in P.calls(w) if p and common.last_seg(p) == "map" and "Iterator" in p]
+                maps = [(b, v) for b, v in maps if v[4][1][0] == "agg" and v[4][1][2] == pc.path]
+                if set(ctx.roots(ccv[4][0])) != {P_(pc, 1)} or len(exs) != 1 or exs[0][3] != ccv or len(maps) != 1 or common.control_conditions(P, pc, ccalls[0]):
+                    self.problems.append((ccalls[0], "refund payouts are built in a closure that is not `map(|asset| pay(asset, recipient))` over the refunds: unrecognised-idiom"))
+                    continue
+                mb, mv = maps[0]
+                ads, kind, src = common.iter_chain(mv[4][0])
+                if any(a not in ("cloned", "copied") for a, _ in ads) or kind not in ("iter", "into_iter"):
+                    self.problems.append((mb, "refund payouts are not mapped over every refund (adaptors %s): unrecognised-idiom" % [a for a, _ in ads]))
+                    continue
+                self.pays = [mb]
+                while src[0] == "call" and isinstance(src[3], str) and common.transparent_arg(src[3]) == 0 and common.last_seg(src[3]) in ("deref", "as_slice", "as_ref", "borrow"):
+                    src = src[4][0]        # the Vec seen as a slice
+                for k in (0, 1):
+                    me = common.mapped_element(("proj", src, ("i", k)))
+                    if me is None:
+                        self.problems.append((mb, "the refunds are not pools.iter().map(..).collect(): unrecognised-idiom"))
+                        continue
+                    work.append((ccalls[0], me, pc))
+        for cb, me, holder in work:
             clo, k, src = me
+            self.pay_fn[k] = (holder, cb)
             cf = P.fn(clo[2])
             ex = common.exit_sites(P, cf)
             if len(ex) != 1:
@@ -165,10 +197,12 @@ def _run(ctx):
             if b2 in w.body.reachable_from(0, cut_blocks=(b,)):
                 r2.fail("C04.R2:burn-skippable", w.path, common.span_of_block_term(w, b2), "a success exit is reachable without building the Burn")
     # ---- R3 ------------------------------------------------------------------------------------------
-    if sorted(wd.refunds) != [0, 1] or len(wd.pays) != 2:
-        r3.fail("C04.R3:coverage", w.path, w.span, "refund transfers cover pool indices %s with %d payouts, expected exactly [0, 1]" % (sorted(wd.refunds), len(wd.pays)))
+    n_pay = len(wd.pays) if all(hf.path == w.path for hf, _ in wd.pay_fn.values()) else len(wd.pay_fn)
+    if sorted(wd.refunds) != [0, 1] or n_pay != 2:
+        r3.fail("C04.R3:coverage", w.path, w.span, "refund transfers cover pool indices %s with %d payouts, expected exactly [0, 1]" % (sorted(wd.refunds), n_pay))
     for k, (cb, X, info_roots, cf, src, r) in sorted(wd.refunds.items()):
-        cv = P.val_call(w, w.body, cb)
+        hf_, hb_ = wd.pay_fn.get(k, (w, cb))
+        cv = P.val_call(hf_, hf_.body, hb_)
         rec = set(ctx.roots(cv[4][1]))
         if rec != {P_(w, wd.sender_i)}:
             r3.fail("C04.R3:recipient:%d" % k, w.path, common.span_of_block_term(w, cb), "refund %d goes to %s, expected the withdrawing holder" % (k, sorted(rec)))
